@@ -27,6 +27,11 @@ def main():
             continue
         meta = json.load(open(os.path.join(SEEDS, sid, "meta.json")))
         prop = meta["property"]
+        if meta.get("obsolete"):
+            results[sid] = {"property": prop, "error": "obsolete: " + meta["obsolete"]}
+            print(sid, "OBSOLETE")
+            json.dump(results, open(rp, "w"), indent=1)
+            continue
         dst = mut.prepare()
         r = subprocess.run(["patch", "-p1", "-d", dst, "-i", os.path.join(SEEDS, sid, "patch.diff")], stdout=subprocess.PIPE, stderr=subprocess.STDOUT, text=True)
         if r.returncode != 0:
